@@ -19,6 +19,10 @@ FLAVOURS = {'e': '* For THIS change prefer one of: state carried from one API ca
 FLAVOURS['f'] = ('* For THIS change: do NOT edit SimOps.__init__ or Heap in sim.py and not the _wave_eval kernel (earlier changes concentrated there) unless the property is anchored '
                  'nowhere else; prefer the OTHER anchored files and functions.  Prefer: an optional / rarely used parameter of a public function, a documented behaviour from a docstring, '
                  'a default value, an interaction of two public calls, or a helper that several public functions share.\n')
+FLAVOURS['g'] = ('* For THIS change: do NOT edit SimOps.__init__ or Heap in sim.py and not the _wave_eval kernel unless the property is anchored nowhere else.  Prefer one of: a numeric '
+                 'edge (dtype width / overflow, negative numbers, zero, very large fan-out or bus width), aliasing of numpy arrays / views (a result that shares memory with an input or with '
+                 'internal state), a mutable default argument or class-level attribute shared between instances, reliance on dict / set iteration order, string handling of names '
+                 '(case, escapes, brackets, leading digits), or an early return / exception path that leaves an object half-updated.\n')
 flavour = FLAVOURS.get(variant, '')
 print(f"""You are testing how good a (hidden) verification harness is. Your job: write ONE realistic, subtle change to the Python library
 s-holst/kyupy that BREAKS the semantic property below while the library still imports and its existing test suite still passes.
